@@ -4,6 +4,196 @@ from props import srvprop, c01
 
 
 INSERTED = {}      # id(history ops) -> (offender transport, indices of the injected messages)
+DIRECTED = set()   # id(history ops) of the directed histories
+NEST_P = 0.5        # share of the broadcasts without callback that get a nested offender packet
+NIMPORTS = 'From VT Require Import Check.SrvCheck Check.C12XCheck.'
+
+
+# ---- re-entrancy at the send (coq/Server/EmitNested.v, coq/Check/C12XCheck.v) ----
+# ('emit_nested', event, data, to, room, skip, ns, n, inner): a broadcast during which, from inside the
+# n-th send, a packet of the offender (or the loss of its transport) is processed; see srv.py::_op_hooked.
+def split_segments(effs):
+    """(sends before the nested operation, the nested operation's effects, sends after it)."""
+    if ('NestedStart',) not in effs:
+        return list(effs), [], []
+    a = effs.index(('NestedStart',))
+    b = effs.index(('NestedEnd',)) if ('NestedEnd',) in effs else len(effs)
+    return list(effs[:a]), list(effs[a + 1:b]), [e for e in effs[b + 1:] if e not in (('NestedStart',), ('NestedEnd',))]
+
+
+def c_nop(o, tbl):
+    from drivers import srv
+    from vt.coqio import pv, copt, cstr, cnat
+    if o[0] == 'emit_nested':
+        _, ev, data, to, room, skip, ns, n, inner = o
+        return '(NEmit %s %s %s %s %s %s %s %s)' % (pv(ev), pv(data), pv(to), pv(room), pv(skip), copt(ns, cstr), cnat(n),
+                                                   srv.c_op(inner, tbl))
+    return '(NPlain %s)' % srv.c_op(o, tbl)
+
+
+def model_view(ops, results):
+    """Model-side view of a history.  `msg_hook` (the broadcast is performed by the event handler of a bystander)
+    is not a model operation of its own: it is printed as the bystander's message followed by the offender's
+    packet.  Equivalent on correct code when the handler performs ONE emit and returns and the nested operation
+    is a packet: a broadcast without callback writes nothing (C12_emit_plain), its recipients are decided before
+    the first send, no packet changes which transports are alive (C12_message_live) - so the sends after the nested
+    packet are those of the sequential run, the nested packet runs in the state the message started in, and the
+    acknowledgement follows.  (Nested transport loss: the sequential run would still send to the closed transport;
+    such histories are left to the with / without comparison.)"""
+    from props import srvcommon
+    ops2, res2, origin = [], [], []
+    for o, (effs, tbl) in zip(srvcommon.expand(ops), results):
+        if o[0] == 'msg_hook':
+            pre, inner, post = split_segments(effs)
+            ops2.append(('msg', o[1], o[2]))
+            res2.append((pre + post, tbl))
+            origin.append('msg_hook')
+            if ('NestedStart',) in effs:
+                if o[4][0] != 'msg':
+                    raise ValueError('msg_hook with a nested transport loss has no sequential equivalent')
+                ops2.append(o[4])
+                res2.append((inner, tbl))
+                origin.append('msg_hook')
+        else:
+            ops2.append(o)
+            res2.append((effs, tbl))
+            origin.append(o[0])
+    return ops2, res2, origin
+
+
+def has_model(ops):
+    return not any(o[0] == 'msg_hook' and o[4][0] != 'msg' for o in ops)
+
+
+def ncase_term(cfg, ops, results, dump):
+    from drivers import srv
+    from vt.coqio import clist
+    ops, results, _origin = model_view(ops, results)
+    ops_t = [c_nop(o, tbl) for o, (effs, tbl) in zip(ops, results)]
+    obs_t = ['(%s, %s, %s)' % tuple(clist([srv.c_eff(e) for e in seg]) for seg in split_segments(effs)) for effs, _ in results]
+    return '(mkN %s %s %s %s)' % (srv.c_cfg(cfg), clist(ops_t), clist(obs_t), srv.c_dump(dump))
+
+
+def _register():
+    from props import srvcommon
+    srvcommon.XKIND['c12'] = ('ncase', NIMPORTS, 'c12x_eval', ncase_term)
+
+
+_register()
+
+
+def strip_nested(o):
+    """The same operation without the offender's nested packet."""
+    if o[0] == 'emit_nested':
+        return ('emit',) + tuple(o[1:7]) + (None,)
+    if o[0] == 'msg_hook':
+        return ('msg', o[1], o[2])
+    return o
+
+
+def offender_packet(rng, ser, off, ns):
+    """What is processed from inside the send: the offender's DISCONNECT / CONNECT of the namespace the
+    broadcast goes to, the loss of its transport, an event, or a malformed frame."""
+    r = rng.random()
+    if r < 0.3:
+        return ('msg', off, server_hist.wire(ser, 1, ns))
+    if r < 0.55:
+        return ('msg', off, server_hist.wire(ser, 0, ns, None, rng.choice([None, None, {'t': 1}])))
+    if r < 0.68:
+        return ('close', off, rng.choice(server_hist.REASONS))
+    if r < 0.78:
+        return ('msg', off, server_hist.wire(ser, 2, ns, rng.choice([None, 3]), ['ev', 1]))
+    if ser == 'msgpack':
+        import msgpack
+        g = msgpack.dumps({'type': rng.choice([0, 1, 2]), 'nsp': ns, 'data': ['ev', 1]})
+        return ('msg', off, rng.choice([g[:-2], g + b'\x01', g + g, b'\xc1', msgpack.dumps({'type': 1}), msgpack.dumps([1])]))
+    base = rng.choice([server_hist.frame(1, ns), server_hist.frame(0, ns), server_hist.frame(2, ns, 1, ['ev', 1]),
+                       '51-' + server_hist.frame(2, ns, None, ['ev', {'_placeholder': True, 'num': 0}])[1:]])
+    return ('msg', off, server_hist.eio_decode(c01.mutate(rng, base)))
+
+
+def nest_emit(rng, cfg, o, off):
+    """Turn a broadcast without callback into the re-entrant form."""
+    ns = o[6] or '/'
+    return ('emit_nested',) + tuple(o[1:7]) + (rng.randrange(1, 5), offender_packet(rng, cfg.get('serializer', 'default'), off, ns))
+
+
+def directed_nested(rng, ser, n_model, n_handler):
+    """Directed histories: 3-5 clients in one namespace, some of them in rooms; then broadcasts (to the
+    namespace, a room, a list of rooms, a single session) with the offender's packet processed from inside
+    the n-th send, each followed by an ordinary broadcast (are the others still served?).
+    Returns (model family: API emits, no scripted actions - model operation NEmit; handler family: the broadcast
+    is performed by a bystander's event handler - with / without comparison, and the model through the equivalent
+    sequence of `model_view` unless the nested operation is a transport loss)."""
+    fam_a, fam_b = [], []
+    for i in range(n_model + n_handler):
+        handler_family = i >= n_model
+        ns = rng.choice(['/chat', '/chat', '/'])
+        n_cl = rng.randrange(3, 6)
+        off_i = rng.randrange(n_cl)
+        eios = ['e%d' % j for j in range(n_cl)]
+        off = eios[off_i]
+        said = [('emit_room', 'said', rng.choice(['hi', {'k': 1}]), rng.choice([None, None, 'lobby']), rng.random() < 0.4)]
+        cfg = {'handlers': {ns: {'connect': 1, 'disconnect': 2, 'ev': 3, 'say': 4}}, 'ns_handlers': {},
+               'behav': {1: {'arity': 2, 'actions': [], 'outcome': ('ret', None)},
+                         2: {'arity': rng.choice([1, 2]), 'actions': [], 'outcome': ('ret', None)},
+                         3: {'arity': None, 'actions': [], 'outcome': ('ret', rng.choice([None, 'x']))},
+                         4: {'arity': 2, 'actions': said if handler_family else [], 'outcome': ('ret', 'ok')}},
+               'namespaces': [ns], 'always_connect': rng.random() < 0.3, 'serializer': ser}
+        ops = []
+        for e in eios:
+            ops.append(('eio_connect', e, {'REMOTE_ADDR': e}))
+            ops.append(('msg', e, server_hist.wire(ser, 0, ns)))
+        sids = ['S%d' % j for j in range(n_cl)]
+        for j in range(n_cl):
+            if rng.random() < 0.6:
+                ops.append(('enter', sids[j], 'lobby', ns))
+            if rng.random() < 0.25:
+                ops.append(('enter', sids[j], 'r2', ns))
+        others = [s for j, s in enumerate(sids) if j != off_i]
+        kinds = ['disconnect', 'connect', 'junk', 'event', 'close']
+        rng.shuffle(kinds)
+        kinds = kinds[:rng.randrange(2, 5)]
+        if 'close' in kinds:            # the loss of the transport comes last: afterwards the offender is gone
+            kinds.remove('close')
+            kinds.append('close')
+        connected = True
+        for kind in kinds:
+            if kind == 'disconnect':
+                inner = ('msg', off, server_hist.wire(ser, 1, ns))
+            elif kind == 'connect':
+                if connected:           # leave first, so that the nested CONNECT is accepted
+                    ops.append(('msg', off, server_hist.wire(ser, 1, ns)))
+                inner = ('msg', off, server_hist.wire(ser, 0, ns))
+            elif kind == 'close':
+                inner = ('close', off, rng.choice(server_hist.REASONS))
+            elif kind == 'event':
+                inner = ('msg', off, server_hist.wire(ser, 2, ns, rng.choice([None, 2]), ['ev', 1]))
+            else:
+                inner = offender_packet(rng, ser, off, ns)
+                while inner[0] != 'msg':
+                    inner = offender_packet(rng, ser, off, ns)
+            n = rng.randrange(1, n_cl + 1)
+            if handler_family:
+                who = rng.choice([e for e in eios if e != off])
+                ops.append(('msg_hook', who, server_hist.wire(ser, 2, ns, rng.choice([5, None]), ['say', 'hi']), n, inner))
+            else:
+                to = rng.choice([None, None, 'lobby', 'lobby', ['lobby', 'r2'], ('r2', 'lobby'), sids[off_i], rng.choice(others)])
+                skip = rng.choice([None, None, None, rng.choice(others), [sids[off_i]], sids[:2]])
+                data = rng.choice(['x', 1, None, ('a', 2), {'k': [1]}] + ([{'b': b'\x00\x01'}, b'raw'] if ser == 'default' else []))
+                use_room = rng.random() < 0.3
+                ops.append(('emit_nested', 'news', data, None if use_room else to, to if use_room else None, skip, ns, n, inner))
+            if kind in ('disconnect', 'connect', 'junk'):
+                connected = (kind == 'connect') or (kind == 'junk' and connected)
+            ops.append(('emit', 'after', 1, None, None, None, ns, None))
+            ops.append(('msg', rng.choice([e for e in eios if e != off]), server_hist.wire(ser, 2, ns, 9, ['ev', 2])))
+            if kind == 'disconnect' and rng.random() < 0.7:
+                ops.append(('msg', off, server_hist.wire(ser, 0, ns)))      # the offender joins again
+                connected = True
+        INSERTED[id(ops)] = (off, set())
+        DIRECTED.add(id(ops))
+        (fam_b if handler_family else fam_a).append((cfg, ops))
+    return fam_a, fam_b
 
 
 def hostile(rng, cfg, ops):
@@ -16,6 +206,8 @@ def hostile(rng, cfg, ops):
     marks = set()
     INSERTED[id(out)] = (off, marks)
     for o in ops:
+        if o[0] == 'emit' and o[7] is None and rng.random() < NEST_P:
+            o = nest_emit(rng, cfg, o, off)
         out.append(o)
         if rng.random() < 0.45:
             base = rng.choice(['2["ev",1]', '2/chat,7["ev",{"a":1}]', '0/chat,{"t":1}', '3/chat,1["x"]', '1/a,',
@@ -44,6 +236,8 @@ def hostile_msgpack(rng, cfg, ops):
             msgpack.dumps({'type': 3, 'nsp': '/', 'data': ['x'], 'id': 1}),
             msgpack.dumps({'type': 1, 'nsp': '/a'}), msgpack.dumps({'type': 0, 'nsp': '/chat', 'data': {}})]
     for o in ops:
+        if o[0] == 'emit' and o[7] is None and rng.random() < NEST_P:
+            o = nest_emit(rng, cfg, o, off)
         out.append(o)
         if rng.random() < 0.4:
             g = rng.choice(good)
@@ -56,15 +250,9 @@ def hostile_msgpack(rng, cfg, ops):
     return cfg, out
 
 
-def bystander_trace(cfg, ops, off, marks, mode, without):
-    """What the clients other than the offender observe: effects of every operation that does not
-    originate from the offender, restricted to the other transports / sessions, with session ids
-    renamed by first appearance (the offender's CONNECT attempts consume ids)."""
+def offender_sids(results, off):
+    """Session ids living on the offender's transport (read off the CONNECT replies it was sent)."""
     import re
-    from drivers import srv
-    keep = [i for i in range(len(ops)) if not (without and i in marks)]
-    results, _ = srv.run_history(cfg, [ops[i] for i in keep], mode)
-    # session ids living on the offender's transport
     mine = set()
     for effs, _t in results:
         for e in effs:
@@ -75,6 +263,36 @@ def bystander_trace(cfg, ops, off, marks, mode, without):
             if e[0] == 'Out' and e[1] == off and isinstance(e[2], dict) and e[2].get('type') == 0 and \
                     isinstance(e[2].get('data'), dict) and 'sid' in e[2]['data']:
                 mine.add(e[2]['data']['sid'])
+    return mine
+
+
+def bystander_run(cfg, ops, off, marks, mode, without):
+    """(model-level operations with their index in the history, results) of the run with / without what
+    the offender injected: the marked messages are removed, nested packets are taken out of the broadcasts."""
+    from drivers import srv
+    from props import srvcommon
+    keep = [i for i in range(len(ops)) if not (without and i in marks)]
+    run_ops = [strip_nested(ops[i]) if without else ops[i] for i in keep]
+    mine, everybody = set(), set()
+
+    def probe(d, _o):
+        # ground truth: the session ids the manager holds (a CONNECT whose handler failed is registered
+        # although it was never answered), those of the offender's transport apart
+        for ns, rm in d.sio.manager.rooms.items():
+            for sid, eio in list((rm.get(None) or {}).items()):
+                everybody.add((ns, sid, eio))
+                if eio == off:
+                    mine.add(sid)
+    results, _ = srv.run_history(cfg, run_ops, mode, probe=probe)
+    expanded = [(i, x) for i, o in zip(keep, run_ops) for x in srvcommon.expand([o])]      # one result per MODEL operation
+    return expanded, results, (mine | offender_sids(results, off), everybody)
+
+
+def bystander_view(expanded, results, off, mine, directed=False):
+    """What the clients other than the offender observe: effects of every operation that does not
+    originate from the offender, restricted to the other transports / sessions, with session ids
+    renamed by first appearance (the offender's CONNECT attempts consume ids)."""
+    import re
     names = {}
 
     def ren(v):
@@ -91,13 +309,17 @@ def bystander_trace(cfg, ops, off, marks, mode, without):
     def mentions_mine(v):
         txt = repr(v)
         return any(re.search(r'\b%s\b' % sid, txt) for sid in mine)
-    issued = sorted(set(re.findall(r'sid.{1,5}?(S\d+)', repr([e for effs, _t in results for e in effs if e[0] == 'Out']))))
-    trace = [['issued', issued]]
-    from props import srvcommon
-    expanded = [(i, x) for i in keep for x in srvcommon.expand([ops[i]])]      # one result per MODEL operation
+    issued = sorted(x for x in set(re.findall(r'sid.{1,5}?(S\d+)', repr([e for effs, _t in results for e in effs if e[0] == 'Out'])))
+                    if not (directed and x in mine))
+    trace = []
     for (i, o), (effs, _t) in zip(expanded, results):
-        if o[0] in ('msg', 'msg_nested', 'msg_sd', 'eio_connect', 'close') and o[1] == off:
+        if o[0] in ('msg', 'msg_nested', 'msg_sd', 'msg_hook', 'eio_connect', 'close') and o[1] == off:
             continue
+        if o[0] in ('emit_nested', 'msg_hook'):
+            # what the offender's nested packet does is judged by the step checker; here: the rest
+            pre, _inner, post = split_segments(effs)
+            effs = pre + post
+            o = strip_nested(o)
         if mentions_mine(o):
             continue        # an API call addressed to the offender's own session
         view = []
@@ -112,13 +334,32 @@ def bystander_trace(cfg, ops, off, marks, mode, without):
                 # offender's own connection state is outside the claim
                 e = ('Raised', 'NotConnected')
             view.append(ren([e[0]] + [x for x in e[1:]]))
-        trace.append(ren([i if not without else i, view])[1])
-    return trace
+        trace.append(view)
+    return issued, trace
+
+
+def bystander_compare(cfg, ops, off, marks, mode, directed):
+    """The two projected traces (with / without the offender), or None when the runs are not comparable: an
+    injected message was itself an accepted CONNECT, it consumed a session id, so the positional ids used by the
+    scripted API calls address different clients.  Random histories: every session id handed out must be the same
+    in both runs; directed histories (every CONNECT is answered, no bystander connects after the offender's extra
+    CONNECT): the bystanders' ids.  In both cases the ids must belong to the same clients (ground truth of the
+    manager: (namespace, sid, transport))."""
+    xa, ra, ma = bystander_run(cfg, ops, off, marks, mode, False)
+    xb, rb, mb = bystander_run(cfg, ops, off, marks, mode, True)
+    mine = ma[0] | mb[0]
+    ia, a = bystander_view(xa, ra, off, mine, directed)
+    ib, b = bystander_view(xb, rb, off, mine, directed)
+    ia = sorted(set(ia) | set('%s|%s|%s' % x for x in ma[1] if not (directed and x[2] == off)))
+    ib = sorted(set(ib) | set('%s|%s|%s' % x for x in mb[1] if not (directed and x[2] == off)))
+    if ia != ib:
+        return None
+    return a, b
 
 
 def bystander_check(chk, hs, sample):
-    """The bystanders' view with and without the offender's injected messages must be the same
-    (a property of the implementation alone; compared inside Coq)."""
+    """The bystanders' view with and without the offender's injected messages / nested packets must be
+    the same (a property of the implementation alone; compared inside Coq)."""
     from vt import coqio
     from vt.coqio import pv, clist
     cases, meta = [], []
@@ -129,16 +370,15 @@ def bystander_check(chk, hs, sample):
         off, marks = INSERTED[id(ops)]
         for mode in ('sync', 'async'):
             try:
-                a = bystander_trace(cfg, ops, off, marks, mode, False)
-                b = bystander_trace(cfg, ops, off, marks, mode, True)
-                if a[0] != b[0]:
-                    # an injected message was itself an accepted CONNECT: it consumed a session id, so the
-                    # positional ids used by the scripted API calls address different clients; not comparable
+                r = bystander_compare(cfg, ops, off, marks, mode, id(ops) in DIRECTED)
+                if r is None:
                     chk.dist('bystander comparison skipped (injected CONNECT accepted)')
                     continue
-                a, b = a[1:], b[1:]
+                a, b = r
                 cases.append('(PGen 12%%N %s %s)' % (clist([pv(x) for x in a]), clist([pv(x) for x in b])))
                 meta.append((i, mode))
+                if any(o[0] in ('emit_nested', 'msg_hook') for o in ops):
+                    chk.dist('bystander comparison with a nested offender packet')
             except Exception as e:
                 chk.broken_obligation('bystander comparison failed on history %d: %r' % (i, e))
     if not cases:
@@ -151,24 +391,63 @@ def bystander_check(chk, hs, sample):
         i, mode = meta[idx]
         cfg, ops = hs[i]
         chk.violation('bystander-trace-depends-on-offender',
-                      'what the other clients observe changes when the offender\'s malformed messages are removed (%s server)' % mode,
-                      {'py': repr((cfg, ops, mode)), 'offender': INSERTED[id(ops)][0], 'injected': sorted(INSERTED[id(ops)][1])})
+                      'what the other clients observe changes when the offender\'s malformed messages / nested packets are '
+                      'removed (%s server)' % mode,
+                      {'py': repr((cfg, ops, mode)), 'offender': INSERTED[id(ops)][0], 'injected': sorted(INSERTED[id(ops)][1]),
+                       'kind': 'bystander', 'directed': id(ops) in DIRECTED})
         break
 
 
 def nontrivial(cfg, ops, results):
+    from props import srvcommon
     rejected = 0
-    for o, (effs, _) in zip(ops, results):
+    fired = 0
+    for o, (effs, _) in zip(srvcommon.expand(ops), results):
         if o[0] == 'msg' and not effs:
             rejected += 1
-    return rejected >= 2 and sum(1 for o in ops if o[0] == 'eio_connect') >= 2
+        if o[0] == 'emit_nested':
+            pre, _inner, post = split_segments(effs)
+            if ('NestedStart',) in effs and pre and post:
+                fired += 1
+    return (rejected >= 2 or fired >= 1) and sum(1 for o in ops if o[0] == 'eio_connect') >= 2
+
+
+def first_bad(cfg, ops, mode):
+    """Index (in the expanded history) of the first operation the Coq step checker rejects, or None."""
+    import re
+    from drivers import srv
+    from vt import coqio
+    results, dump = srv.run_history(cfg, ops, mode)
+    term = ncase_term(cfg, ops, results, dump)
+    rc, out = coqio.eval_print('c12_firstbad', NIMPORTS, 'Definition the_case := %s.' % term,
+                               ['nfirst_bad (n_cfg the_case) srv_init (n_ops the_case) (n_obs the_case) 0'])
+    m = re.search(r'=\s*Some\s+(\d+)', out)
+    return int(m.group(1)) if m else None
+
+
+def prop_sig(prefix):
+    def sig(cfg, ops, mode):
+        from props import srvcommon
+        try:
+            i = first_bad(cfg, ops, mode)
+            from drivers import srv
+            origin = model_view(ops, srv.run_history(cfg, ops, mode)[0])[2]
+            if i is not None and origin[i] in ('emit_nested', 'msg_hook'):
+                return '%s-%s-broadcast-interrupted-by-offender' % (prefix, mode)
+        except Exception:
+            pass
+        return '%s-%s-property' % (prefix, mode)
+    return sig
 
 
 def run(chk):
     k = server_hist.Knobs(n_ops=22, refuse=0.1, actions=0.0)
     k.w.update({'junk': 3, 'binary': 1.5, 'event': 4, 'ack': 1.5, 'emit_cb': 1.5, 'session': 1})
     chk.assumptions = ["the offender's own connection may be left unusable (outside the claim)",
-                       'msgpack serializer: see MsgPack notes in DESIGN.md (decode is the library oracle)']
+                       'msgpack serializer: see MsgPack notes in DESIGN.md (decode is the library oracle)',
+                       're-entrant broadcasts: the offender\'s packet is processed from inside the send to one recipient on the '
+                       'same thread / task (as when engine.io closes a client from inside a send); this stands for the '
+                       'two-thread interleaving "the offender\'s thread runs between two sends of the broadcast"']
     from props import srvcommon, c03
     # a server that reserves memory in proportion to a declared number must fail here with MemoryError
     # (contained by engine.io) instead of taking the whole sandbox down
@@ -181,18 +460,29 @@ def run(chk):
                 'engine.io-level JSON payloads, stray binary; msgpack: truncated / concatenated / trailing-byte / mistyped blobs) '
                 'injected from one offender after ~45% of the operations; the Coq checker judges every offender message: no packet '
                 'to another transport, no handler call on behalf of another sid, no foreign callback, other clients\' state '
-                'projection unchanged, undecodable input reaches no handler; additionally the bystanders\' view of the run is '
-                'compared with the run without the injected messages; non-trivial = >= 2 rejected messages and >= 2 transports; '
-                'distinct by effect signature')
-    chk.trusted_base = list(srvprop.TRUSTED) + ['msgpack.loads / dumps as oracles (frames compared as the packed dict)']
+                'projection unchanged, undecodable input reaches no handler; half of the broadcasts without callback, and '
+                'directed histories (3-5 clients in a namespace / rooms), are re-entrant: a packet of the offender (DISCONNECT / '
+                'CONNECT of the namespace, event, malformed frame, loss of its transport) is processed from inside the n-th '
+                'send; the Coq checker (model operation NEmit of Server/EmitNested.v) demands the three observation segments '
+                'of the model, every other addressed member served exactly once, no exception, and judges the nested packet; '
+                'additionally the bystanders\' view of the run is compared with the run without the injected messages / '
+                'nested packets (also for broadcasts performed by a bystander\'s event handler); non-trivial = >= 2 rejected '
+                'messages or a nested packet between two sends, and >= 2 transports; distinct by effect signature')
+    chk.trusted_base = list(srvprop.TRUSTED) + ['msgpack.loads / dumps as oracles (frames compared as the packed dict)',
+                                                'hand model Server/EmitNested.v (tied by the same correspondence; '
+                                                'C12_emit_plain ties it to Server.v)']
     chk.prove()
     rng = chk.rng
-    hs = srvcommon.load_corpus('c12')
+    hs = [h for h in srvcommon.load_corpus('c12') if not any(o[0] == 'msg_sd' for o in h[1])]
     for _ in range(1500 if chk.thorough else 110):
         cfg, ops = server_hist.gen_history(rng, k)
         hs.append(hostile(rng, cfg, ops))
+    dir_a, dir_b = directed_nested(rng.sub('directed') if hasattr(rng, 'sub') else rng, 'default',
+                                   120 if chk.thorough else 16, 60 if chk.thorough else 8)
+    n_random = len(hs)
+    hs += dir_a + [h for h in dir_b if has_model(h[1])]
     bad = srvcommon.run_histories(chk, 'c12', hs, nontrivial=nontrivial)
-    c03.report(chk, 'c12', hs, bad)
+    c03.report(chk, 'c12', hs, bad, prop_sig('c12'))
     # the same with the msgpack serializer (frames are msgpack blobs; the msgpack library is an oracle)
     k2 = server_hist.Knobs(n_ops=22, refuse=0.1, actions=0.0, serializer='msgpack')
     k2.w.update({'junk': 1, 'binary': 1.5, 'event': 4, 'ack': 1.5, 'emit_cb': 1.5, 'session': 1})
@@ -200,13 +490,19 @@ def run(chk):
     for _ in range(500 if chk.thorough else 45):
         cfg, ops = server_hist.gen_history(rng, k2)
         hs2.append(hostile_msgpack(rng, cfg, ops))
+    dir_a2, dir_b2 = directed_nested(rng.sub('directed-msgpack') if hasattr(rng, 'sub') else rng, 'msgpack',
+                                     40 if chk.thorough else 8, 20 if chk.thorough else 4)
+    n_random2 = len(hs2)
+    hs2 += dir_a2 + [h for h in dir_b2 if has_model(h[1])]
     bad2 = srvcommon.run_histories(chk, 'c12', hs2, nontrivial=nontrivial)
-    c03.report(chk, 'c12', hs2, bad2, lambda cfg, ops, mode: 'c12-msgpack-%s-property' % mode)
+    c03.report(chk, 'c12', hs2, bad2, prop_sig('c12-msgpack'))
     # directed search / sample: bystander view with and without the offender
-    allh = hs + hs2
+    allh = hs + hs2 + [h for h in dir_b + dir_b2 if not has_model(h[1])]
     suspects = [i for i, _m, _c, _t in bad] + [len(hs) + i for i, _m, _c, _t in bad2]
-    sample = sorted(set(suspects[:10] + list(range(0, len(hs), max(1, len(hs) // 12))) +
-                        list(range(len(hs), len(allh), max(1, len(hs2) // 12)))))
+    sample = sorted(set(suspects[:10] + list(range(0, n_random, max(1, n_random // 12))) +
+                        list(range(len(hs), len(hs) + n_random2, max(1, n_random2 // 12))) +
+                        list(range(n_random, len(hs))) + list(range(len(hs) + n_random2, len(allh)))))
+    chk.extra['directed_nested_histories'] = {'model (API emit)': len(dir_a) + len(dir_a2), 'handler emit': len(dir_b) + len(dir_b2)}
     bystander_check(chk, allh, sample)
     if not chk.violations:
         resource_guard(chk)
@@ -252,8 +548,66 @@ def resource_guard(chk):
                           % (len(f), p), {'frame': f, 'peak_bytes': p})
 
 
+def parity_traces(rng, n):
+    """For C14 (threaded / asyncio parity of the server pair): the directed re-entrant broadcasts (API emit and
+    emit performed by a bystander's event handler) executed on both servers; per-operation effects and final dump."""
+    from drivers import srv
+
+    def plain(v):
+        if isinstance(v, (list, tuple)):
+            return [plain(x) for x in v]
+        if isinstance(v, dict):
+            return {plain(a) if not isinstance(a, (list, tuple)) else repr(a): plain(b) for a, b in v.items()}
+        return v
+    out = []
+    per = max(2, n // 8)
+    for ser in ('default', 'msgpack'):
+        fam_a, fam_b = directed_nested(rng, ser, per, per)
+        for cfg, ops in fam_a + fam_b:
+            rs, ds = srv.run_history(cfg, ops, 'sync', False)
+            ra, da = srv.run_history(cfg, ops, 'async', True)
+            ts = [plain([list(e) for e in effs]) for effs, _ in rs] + [plain(sorted(ds.items()))]
+            ta = [plain([list(e) for e in effs]) for effs, _ in ra] + [plain(sorted(da.items()))]
+            out.append(('server-nested-broadcast', (cfg, ops), ts, ta))
+    return out
+
+
 def replay(chk, data):
-    if 'frame' in data['replay']:
-        print(data['replay'])
+    import ast
+    r = data['replay']
+    if 'frame' in r:
+        print(r)
         return 1
-    return srvprop.replay(chk, data, 'c12')
+    if r.get('kind') == 'bystander':
+        cfg, ops, mode = ast.literal_eval(r['py'])
+        ops = [tuple(o) for o in ops]
+        off, marks = r['offender'], set(r['injected'])
+        res = bystander_compare(cfg, ops, off, marks, mode, bool(r.get('directed')))
+        if res is None:
+            print('the two runs hand out session ids to different clients: not comparable (skipped by the check)')
+            return 0
+        a, b = res
+        bad = 0
+        for j, (x, y) in enumerate(zip(a, b)):
+            if x != y:
+                bad += 1
+                print('bystander view differs at projected operation %d:\n   with the offender   : %r\n   without the offender: %r' % (j, x, y))
+        if len(a) != len(b):
+            bad += 1
+            print('projected traces have different lengths', len(a), len(b))
+        return 1 if bad else 0
+    cfg, ops, mode = ast.literal_eval(r['py'])
+    ops = [tuple(o) for o in ops]
+    from props import srvcommon
+    from drivers import srv
+    code, term = srvcommon.eval_one('c12', cfg, ops, mode)
+    print('checker code (bit1 = model/implementation disagree, bit2 = property violated):', code)
+    print('first operation rejected by the step checker:', first_bad(cfg, ops, mode))
+    from vt import coqio
+    rc, out = coqio.eval_print('c12_replay', NIMPORTS, 'Definition the_case := %s.' % term,
+                               ['nfirst_diff (n_cfg the_case) srv_init (n_ops the_case) (n_obs the_case) 0'])
+    print('first operation on which model and implementation differ:', out.strip().splitlines()[-2:] if out.strip() else out)
+    res, _ = srv.run_history(cfg, ops, mode)
+    for j, (o, (e, _t)) in enumerate(zip(*model_view(ops, res)[:2])):
+        print(j, o, '=>', e)
+    return 0 if code == 0 else 1
